@@ -4,6 +4,9 @@ EXTENDS Corrupt, Json, IOUtils, SequencesExt, TLC
 VARIABLE x
 Univ == [catalogue |-> SetToSeq(Catalogue), pairseeds |-> SetToSeq(PairSeeds), npairs |-> Cardinality(Pairs) \div 2, triples |-> SetToSeq(Triples),
          c02_closed |-> SetToSeq(C02Closed),
+         \* C02 only: high halves / exact range boundaries (single fields), superblock recipes on C02's tool-built images
+         c02_bounds |-> SetToSeq(C02Bounds),
+         c02_extras |-> [images |-> SetToSeq(HtreeExtras), hash |-> SetToSeq(ExtraHashRecipes), sb |-> SetToSeq(ExtraSbRecipes)],
          \* boundary catalogue (starting images of C01's own): images by kind, recipes and mandatory recipes by kind
          boundary |-> [metabg |-> SetToSeq(MetaBgImages), longext |-> SetToSeq(LongImages), bigdir |-> SetToSeq(DirImages),
                        recipes |-> [k \in DOMAIN Mandatory |-> SetToSeq(ImageRecipes(k))],
